@@ -107,8 +107,8 @@ inputs, `{zero}`, `{one}`, constants); `ids` is the id slice that
 structure Entry where
   key   : Nat
   base  : Option Nat          -- none = UnassignedID
-  wires : Option (List Nat)
-  ids   : Option (List Nat)
+  wires : Option (Array Nat)
+  ids   : Option (Array Nat)
   deriving Repr, Inhabited
 
 /-- `WireAllocator`: hash table (association list), `freeIDs` (per size a
@@ -140,10 +140,10 @@ def WAlloc.pushFree (st : WAlloc) (bits base : Nat) : WAlloc :=
     | none => []
   { st with free := (bits, base :: old) :: st.free.filter (·.1 != bits) }
 
-def idRange (base n : Nat) : List Nat := (List.range n).map (base + ·)
+def idRange (base n : Nat) : Array Nat := (Array.range n).map (base + ·)
 
 /-- `WireAllocator.AssignedIDs`. -/
-def WAlloc.assignedIDs (st : WAlloc) (key bits : Nat) : WAlloc × List Nat :=
+def WAlloc.assignedIDs (st : WAlloc) (key bits : Nat) : WAlloc × Array Nat :=
   match st.lookup key with
   | some e =>
     match e.ids with
@@ -152,11 +152,11 @@ def WAlloc.assignedIDs (st : WAlloc) (key bits : Nat) : WAlloc × List Nat :=
       -- `alloc.ids = walloc.newIDs(bits)` (consumes a recycled slice), then
       -- filled from the wires' ids
       let st := (st.popFree bits).1
-      let ids := (e.wires.getD []).take bits
+      let ids := (e.wires.getD #[]).extract 0 bits
       (st.put { e with ids := some ids }, ids)
   | none =>
     if bits == 0 then
-      (st.put { key := key, base := some st.next, wires := none, ids := some [] }, [])
+      (st.put { key := key, base := some st.next, wires := none, ids := some #[] }, #[])
     else
       match st.popFree bits with
       | (st, some base) =>
@@ -168,7 +168,7 @@ def WAlloc.assignedIDs (st : WAlloc) (key bits : Nat) : WAlloc × List Nat :=
           { key := key, base := some st.next, wires := none, ids := some ids }, ids)
 
 /-- Store rewired ids back (the Go code writes through the shared slice). -/
-def WAlloc.setIds (st : WAlloc) (key : Nat) (ids : List Nat) : WAlloc :=
+def WAlloc.setIds (st : WAlloc) (key : Nat) (ids : Array Nat) : WAlloc :=
   match st.lookup key with
   | some e => st.put { e with ids := some ids }
   | none => st
@@ -181,11 +181,11 @@ def WAlloc.gcWires (st : WAlloc) (key : Nat) : WAlloc :=
   | some e =>
     let st := { st with tab := st.tab.filter (·.key != key) }
     let base := match e.wires with
-      | some (w :: _) => some (e.base.getD w)
-      | _ => e.base
+      | some w => if w.size > 0 then some (e.base.getD (w.getD 0 0)) else e.base
+      | none => e.base
     match e.ids with
-    | some (i :: is) => st.pushFree (is.length + 1) (base.getD i)
-    | _ => st
+    | some ids => if ids.size > 0 then st.pushFree ids.size (base.getD (ids.getD 0 0)) else st
+    | none => st
 
 /-- What is observable of one streamed program on the wire. -/
 structure Trace where
@@ -193,18 +193,20 @@ structure Trace where
   retIds : List Nat := []
   deriving Repr, Inhabited
 
-def getId (w : List Nat) (i : Nat) (pad : Nat) : Nat := if h : i < w.length then w[i] else pad
+def getId (w : Array Nat) (i : Nat) (pad : Nat) : Nat := w.getD i pad
+
+def lastD (w : Array Nat) (pad : Nat) : Nat := if w.size > 0 then w.getD (w.size - 1) pad else pad
 
 /-- The wires of one input value (with the "const values are cast to
 different value sizes" padding of `Program.Stream`). -/
-def inputWires (st : WAlloc) (zw : Nat) (a : Arg) : WAlloc × List Nat :=
+def inputWires (st : WAlloc) (zw : Nat) (a : Arg) : WAlloc × Array Nat :=
   let (st, w) := st.assignedIDs a.key a.bits
-  if w.length != a.bits then
-    let pad := if a.signed && w.length > 0 then w.getLastD zw else zw
-    (st, (List.range a.bits).map fun b => getId w b pad)
+  if w.size != a.bits then
+    let pad := if a.signed && w.size > 0 then lastD w zw else zw
+    (st, (Array.range a.bits).map fun b => getId w b pad)
   else (st, w)
 
-def allInputWires (zw : Nat) : List Arg → WAlloc → WAlloc × List (List Nat)
+def allInputWires (zw : Nat) : List Arg → WAlloc → WAlloc × List (Array Nat)
   | [], st => (st, [])
   | a :: as, st =>
     let (st, w) := inputWires st zw a
@@ -215,43 +217,43 @@ def cintAt (ins : List Arg) (i : Nat) : Nat := (ins.getD i default).cint
 
 /-- The id rewiring of one rewiring operand; `out` is the freshly assigned id
 slice of the output value, `ws` the input wires. -/
-def rewire (op : Op) (ins : List Arg) (ws : List (List Nat)) (out : List Nat) (obits zw : Nat) : List Nat :=
-  let w0 := ws.getD 0 []
-  let w1 := ws.getD 1 []
+def rewire (op : Op) (ins : List Arg) (ws : List (Array Nat)) (out : Array Nat) (obits zw : Nat) : Array Nat :=
+  let w0 := ws.getD 0 #[]
+  let w1 := ws.getD 1 #[]
   match op with
   | .concat =>
-    (List.range out.length).map fun b =>
-      if b < w0.length then getId w0 b zw else getId w1 (b - w0.length) zw
+    (Array.range out.size).map fun b =>
+      if b < w0.size then getId w0 b zw else getId w1 (b - w0.size) zw
   | .lshift =>
     let c := cintAt ins 1
-    (List.range out.length).map fun b =>
-      if c ≤ b ∧ b - c < w0.length then getId w0 (b - c) zw else zw
+    (Array.range out.size).map fun b =>
+      if c ≤ b ∧ b - c < w0.size then getId w0 (b - c) zw else zw
   | .rshift =>
     let c := cintAt ins 1
-    (List.range out.length).map fun b => getId w0 (b + c) zw
+    (Array.range out.size).map fun b => getId w0 (b + c) zw
   | .srshift =>
     let c := cintAt ins 1
-    (List.range out.length).map fun b => getId w0 (b + c) (w0.getLastD zw)
+    (Array.range out.size).map fun b => getId w0 (b + c) (lastD w0 zw)
   | .slice =>
     let frm := cintAt ins 1
     let to := cintAt ins 2
-    (List.range out.length).map fun b =>
+    (Array.range out.size).map fun b =>
       if b < to - frm then getId w0 (frm + b) zw else getId out b zw
   | .mov =>
-    (List.range out.length).map fun b => if b < obits then getId w0 b zw else getId out b zw
+    (Array.range out.size).map fun b => if b < obits then getId w0 b zw else getId out b zw
   | .smov =>
-    (List.range out.length).map fun b =>
-      if b < obits then getId w0 b (w0.getLastD zw) else getId out b zw
+    (Array.range out.size).map fun b =>
+      if b < obits then getId w0 b (lastD w0 zw) else getId out b zw
   | .amov =>
     let frm := cintAt ins 2
     let to := cintAt ins 3
-    (List.range out.length).map fun b =>
+    (Array.range out.size).map fun b =>
       if b < obits then
         (if b < frm ∨ to ≤ b then getId w1 b zw else getId w0 (b - frm) zw)
       else getId out b zw
   | _ => out
 
-def listMax (l : List Nat) : Nat := l.foldl max 0
+def arrMax (l : Array Nat) : Nat := l.foldl max 0
 
 /-- One iteration of the step loop of `Program.Stream`. -/
 def streamStep (zw : Nat) (idx : Nat) (s : Step) (st : WAlloc) (tr : Trace) : WAlloc × Trace :=
@@ -264,11 +266,11 @@ def streamStep (zw : Nat) (idx : Nat) (s : Step) (st : WAlloc) (tr : Trace) : WA
     let (st, ws) := allInputWires zw s.ins st
     let (st, out) := match s.out with
       | some o => st.assignedIDs o.key o.bits
-      | none => (st, [])
+      | none => (st, #[])
     match s.op with
-    | .ret => (st, { tr with retIds := tr.retIds ++ ws.flatten })
+    | .ret => (st, { tr with retIds := tr.retIds ++ (ws.map Array.toList).flatten })
     | .circ =>
-      let m := max (listMax ws.flatten) (listMax out)
+      let m := max ((ws.map arrMax).foldl max 0) (arrMax out)
       (st, { tr with circs := tr.circs ++ [(idx, m + 1)] })
     | op =>
       match s.out with
@@ -303,8 +305,8 @@ def initAlloc (inputs : List (Nat × Nat)) (consts : List ConstDef) : WAlloc × 
   let zw := nIn
   let one := nIn + 1
   let cs := consts.map fun c =>
-    let w := c.bits.map fun b => if b then one else zw
-    ({ key := c.key, base := w.head?, wires := some w, ids := some w } : Entry)
+    let w := (c.bits.map fun b => if b then one else zw).toArray
+    ({ key := c.key, base := w[0]?, wires := some w, ids := some w } : Entry)
   ({ tab := cs ++ mkIn inputs 0, free := [], next := nIn + 2 }, zw,
    { circs := [(0, zw + 1), (0, one + 1)] })
 
